@@ -321,7 +321,9 @@ template<typename T, typename C, typename A>
 bool req_sketch<T, C, A>::is_exact_rank(uint16_t k, uint8_t num_levels, double rank, uint64_t n, bool hra) {
   const unsigned base_cap = k * req_constants::INIT_NUM_SECTIONS;
   if (num_levels == 1 || n <= base_cap) return true;
-  const double exact_rank_thresh = static_cast<double>(base_cap) / n;
+  // one less than the base capacity: an estimate that lands exactly on the edge of the protected region can belong to an
+  // item just outside it, whose rank is not exact
+  const double exact_rank_thresh = static_cast<double>(base_cap - 1) / n;
   return (hra && rank >= 1.0 - exact_rank_thresh) || (!hra && rank <= exact_rank_thresh);
 }
 
